@@ -54,17 +54,21 @@ deriving Repr
 
 def view (st : St) : KV := overlayApply st.under st.overlay
 
-/-- `Get`: cache first, then the parent (`none` = nil result) -/
-def get (st : St) (k : Bytes) : Option Bytes :=
-  match st.overlay.lookup k with
+/-- `Get` over any parent reader: cache first, then the parent (`none` = nil result) -/
+def getOver (parentGet : Bytes → Option Bytes) (ov : Overlay) (k : Bytes) : Option Bytes :=
+  match ov.lookup k with
   | some entry => entry
-  | none => st.under.get k
+  | none => parentGet k
 
-/-- `Has` -/
-def has (st : St) (k : Bytes) : Bool :=
-  match st.overlay.lookup k with
+/-- `Has` over any parent reader -/
+def hasOver (parentHas : Bytes → Bool) (ov : Overlay) (k : Bytes) : Bool :=
+  match ov.lookup k with
   | some entry => entry.isSome
-  | none => st.under.has k
+  | none => parentHas k
+
+def get (st : St) (k : Bytes) : Option Bytes := getOver st.under.get st.overlay k
+
+def has (st : St) (k : Bytes) : Bool := hasOver st.under.has st.overlay k
 
 def put (st : St) (k v : Bytes) : St :=
   { st with overlay := st.overlay.put k (some v), sizeEst := st.sizeEst + k.length + v.length + 128 }
@@ -81,7 +85,14 @@ def replay (b : List Op) : List Op := b
 
 /-- `Flush`: every tree node, in key order, goes into a batch on the underlying store (written in
     chunks of `IdealBatchSize`, sequentially the same), then the tree is cleared -/
-def flush (st : St) : St := { under := st.overlay.foldl applyNode st.under, overlay := [], sizeEst := 0 }
+def nodeOp (p : Bytes × Option Bytes) : Op :=
+  match p.2 with
+  | some v => .put p.1 v
+  | none => .del p.1
+
+def flushOps (ov : Overlay) : List Op := ov.map nodeOp
+
+def flush (st : St) : St := { under := applyBatch st.under (flushOps st.overlay), overlay := [], sizeEst := 0 }
 
 def dropNotFlushed (st : St) : St := { st with overlay := [], sizeEst := 0 }
 
